@@ -285,6 +285,13 @@ pub fn run(args: &Args, rec: &mut Recorder) {
             two_modules_case(rng, rec);
             return None;
         }
+        if case % 16 == 13 {
+            // the built-in definition takes precedence over the A2ML block of the text for every
+            // entry point: a module body loaded as a fragment is interpreted like the same body
+            // inside a file
+            crate::c01::fragment_with_builtin_spec_case(rng, rec);
+            return None;
+        }
         let def = gen_def(rng);
         let def_text = render_def(&def, rng);
         for f in &def.features {
@@ -515,6 +522,7 @@ pub fn run(args: &Args, rec: &mut Recorder) {
     for s in 0..5 {
         rec.floor(&format!("definition.{}", source_label(s)), 3);
         rec.floor("two_modules.cases", 5);
+        rec.floor("fragment_with_builtin_spec", 5);
     }
 }
 
